@@ -43,15 +43,15 @@ func init() {
 }
 
 type etcdRig struct {
-	c    *harness.Case
-	n    *harness.Node
-	api  etcdAPI // the real handlers in-process, or the same through a real gRPC connection
-	m    *harness.Model
-	hist []string
-	vec  []byte
-	fw   *fakeWatchServer
-	wcancel context.CancelFunc
-	truth []truthEv
+	c                            *harness.Case
+	n                            *harness.Node
+	api                          etcdAPI // the real handlers in-process, or the same through a real gRPC connection
+	m                            *harness.Model
+	hist                         []string
+	vec                          []byte
+	fw                           *fakeWatchServer
+	wcancel                      context.CancelFunc
+	truth                        []truthEv
 	nFailKv, nZero, nCut, nUnsup int
 }
 
